@@ -37,6 +37,14 @@ type c09Rig struct {
 	stop      int32
 	churned   bool // the previous plan changed membership
 	corrupt   string
+	calls     map[int][]c09Call // per listen entry: dialogs set up by earlier transactions (of this or an earlier plan)
+}
+
+// c09Call: a dialog an INVITE of some client set up (the backend's 200 carried a To-tag).
+type c09Call struct {
+	id   string
+	from int // the client whose INVITE it was (its From URI names it)
+	at   time.Time
 }
 
 func (r *c09Rig) tick() int64 { return atomic.AddInt64(&r.clk, 1) }
@@ -83,7 +91,9 @@ func (r *c09Rig) udpBackend(ip string, port int) error {
 				continue
 			}
 			id, _ := m.First(hCallID)
-			r.record(id, name)
+			if !strings.HasPrefix(m.Start, "BYE ") { // (the BYE of an old dialog is not accounted for)
+				r.record(id, name)
+			}
 			r.checkBody(m, id, name)
 			es := m.Entries(hVia)
 			if len(es) == 0 {
@@ -123,7 +133,9 @@ func (r *c09Rig) tcpBackend(ip string, port int) error {
 						continue
 					}
 					id, _ := m.First(hCallID)
-					r.record(id, name)
+					if !strings.HasPrefix(m.Start, "BYE ") {
+						r.record(id, name)
+					}
 					r.checkBody(m, id, name)
 					c.Write(c09Respond(m))
 				}
@@ -136,7 +148,7 @@ func (r *c09Rig) tcpBackend(ip string, port int) error {
 func newC09Rig(bin bool) (*c09Rig, error) {
 	in := labNewInst()
 	ip := in.ip
-	r := &c09Rig{in: in, backendOf: map[string]int{}, seenAt: map[string][]string{}}
+	r := &c09Rig{in: in, backendOf: map[string]int{}, seenAt: map[string][]string{}, calls: map[int][]c09Call{}}
 	r.pools = [2]string{fmt.Sprintf("c09-pool-a-%d.verif.invalid", in.c), fmt.Sprintf("c09-pool-b-%d.verif.invalid", in.c)}
 	r.poolIPs = [2][]string{{ip(40), ip(41), ip(42)}, {ip(43), ip(44)}}
 	// the global dynamic resolver without its polling goroutine (DNS is dead in
@@ -147,6 +159,9 @@ func newC09Rig(bin bool) (*c09Rig, error) {
 	dynamicHostResolver = &DynamicHostResolver{hostIPs: map[string]*AddressWithCallback{}}
 	r.cfg = labCfg{
 		Name: "svc.test",
+		// (pins live for a second: calls set up by earlier transactions are expired,
+		// and not necessarily swept yet, when their BYE comes)
+		DialogTimeout: 1,
 		Listens: []labListenCfg{
 			{Addr: ip(1), UDPPort: 5060, TCPPort: 5060, Backends: []string{"udp://" + ip(31) + ":5080", "udp://" + r.pools[0] + ":5080"}},
 			{Addr: ip(2), UDPPort: 5062, TCPPort: 5063, Backends: []string{"tcp://" + ip(33) + ":5080", "tcp://" + r.pools[1] + ":5080"}}, // a dynamically resolved pool of TCP backends
@@ -333,6 +348,8 @@ func (r *c09Rig) run(plan c09Plan, tag string) c09Outcome {
 		}
 		var silent *patience
 		unanswered := 0
+		byes := 0
+		defer func() { V.ExtraAdd("byes_of_calls_whose_pin_had_just_expired", int64(byes)) }()
 		for j := 0; j < plan.PerClient; j++ {
 			if atomic.LoadInt32(&r.stop) != 0 {
 				return
@@ -374,6 +391,39 @@ func (r *c09Rig) run(plan c09Plan, tag string) c09Outcome {
 				cid := id + "-p"
 				wire = fmt.Sprintf("MESSAGE sip:svc.test SIP/2.0\r\nVia: %s;branch=z9hG4bK%s;rport\r\nFrom: <sip:c%d@client.example>;tag=f\r\nTo: <sip:svc@svc.test>\r\nCall-ID: %s\r\nCSeq: %d MESSAGE\r\nContent-Length: %d\r\n\r\n%s", via, cid, ci, cid, j+1, len(c09Body(cid)), c09Body(cid)) + wire
 			}
+			if j%3 == 2 {
+				// ahead of it, the BYE of a call that was set up more than a dialog timeout
+				// ago through the same listen entry (not accounted for; wherever it
+				// arrives its body is checked): its pin has expired
+				var old string
+				var oldFrom int
+				r.mu.Lock()
+				// (the youngest call whose pin has just expired: the older ones have been swept)
+				cs := r.calls[entry]
+				for len(cs) > 0 && time.Since(cs[0].at) > 1900*time.Millisecond {
+					cs = cs[1:]
+				}
+				if len(cs) > 0 && time.Since(cs[0].at) > 1050*time.Millisecond {
+					k := 0
+					for k+1 < len(cs) && time.Since(cs[k+1].at) > 1050*time.Millisecond {
+						k++
+					}
+					old, oldFrom = cs[k].id, cs[k].from
+					cs = append(cs[:k:k], cs[k+1:]...)
+					byes++
+				}
+				r.calls[entry] = cs
+				r.mu.Unlock()
+				if old != "" {
+					bye := fmt.Sprintf("BYE sip:svc.test SIP/2.0\r\nVia: %s;branch=z9hG4bK%s-bye;rport\r\nFrom: <sip:c%d@client.example>;tag=f\r\nTo: <sip:svc@svc.test>;tag=t\r\nCall-ID: %s\r\nCSeq: 9 BYE\r\nContent-Length: %d\r\n\r\n%s", via, id, oldFrom, old, len(c09Body(old)), c09Body(old))
+					if tcp {
+						wire = bye + wire
+					} else if err := send([]byte(bye)); err != nil {
+						setFail("client %d: send failed: %v", ci, err)
+						return
+					}
+				}
+			}
 			if j%4 == 1 {
 				// ahead of it, a request that can go nowhere: its first Route entry carries
 				// the listener's port and a name nobody knows (never seen before) - the
@@ -408,7 +458,16 @@ func (r *c09Rig) run(plan c09Plan, tag string) c09Outcome {
 				}
 				if cid, _ := m.First(hCallID); cid == id {
 					t.answer = true
+					if method == "INVITE" {
+						r.mu.Lock()
+						if len(r.calls[entry]) < 4000 {
+							r.calls[entry] = append(r.calls[entry], c09Call{id, ci, time.Now()})
+						}
+						r.mu.Unlock()
+					}
 					break
+				} else if cs, _ := m.First(hCSeq); strings.HasSuffix(cs, " BYE") {
+					// (the answer to the BYE of an old call)
 				} else if !strings.HasPrefix(cid, fmt.Sprintf("c09-%s-%d-", tag, ci)) {
 					setFail("client %d received a response that belongs to another client: Call-ID %q", ci, cid)
 				}
@@ -794,7 +853,7 @@ func c09SharedObjects(rt *rapid.T) string {
 }
 
 func TestC09(t *testing.T) {
-	V.Rule("lab under the race detector: rapid draws load plans - GOMAXPROCS in {2,4,8,16}, 2-12 UDP and 1-8 TCP stop-and-wait clients spread over three listen entries of one service (shared learned-route table; UDP and TCP listeners; UDP, TCP and dynamically resolved backends), 30-250 transactions each with unique identifiers in a fixed mix (OPTIONS - every other one to a To host never seen before -, dialog-creating INVITE answered with a To-tag, in-dialog INFO of an unknown dialog, MESSAGE with one of two literal static routes or, to a host never seen before, a wildcard route, whose next hops are host-table names), backends that answer every request, optional membership churn through the resolver's addressResolved entry point, sparse (a change every 70-110 ms) or fast (every 100-400 us), at least one stable backend per listen entry, every fourth transaction preceded by a request whose first Route entry names an unknown host with the listener's port (looked up, unreachable, dropped), optional hammering of ByteArrayPool, ClientTransportMgr, DynamicHostResolver and a host table from three goroutines; unit (shared-objects): the learned-route table taught 200-3000 hosts by each of 2-6 loops at once (every host known afterwards, with its listener; a loop finds what it learned itself at once) and the rotation dispatching from 2-6 loops while two further backends are added and removed without pause (no panic, every dispatch at exactly one backend). Oracle: no race report, no fatal error or panic, every client finishes (no transaction waits more than 20 s unless a membership change was in flight), every request reached exactly one backend of the listen entry it was sent to (at most one while a change was in flight), every response returned to the client that sent the request, every request body (a function of its Call-ID; TCP clients pipeline a companion request now and then) arrived intact. non-trivial = plan with >= 2 listeners receiving simultaneously and >= 1 membership change during traffic; distinct by plan")
+	V.Rule("lab under the race detector: rapid draws load plans - GOMAXPROCS in {2,4,8,16}, 2-12 UDP and 1-8 TCP stop-and-wait clients spread over three listen entries of one service (shared learned-route table; UDP and TCP listeners; UDP, TCP and dynamically resolved backends), 30-250 transactions each with unique identifiers in a fixed mix (OPTIONS - every other one to a To host never seen before -, dialog-creating INVITE answered with a To-tag (the service's dialog timeout is 1 s; the BYE of a call set up 1.05-1.9 s ago - in this or an earlier plan - goes ahead of every third transaction when there is one), in-dialog INFO of an unknown dialog, MESSAGE with one of two literal static routes or, to a host never seen before, a wildcard route, whose next hops are host-table names), backends that answer every request, optional membership churn through the resolver's addressResolved entry point, sparse (a change every 70-110 ms) or fast (every 100-400 us), at least one stable backend per listen entry, every fourth transaction preceded by a request whose first Route entry names an unknown host with the listener's port (looked up, unreachable, dropped), optional hammering of ByteArrayPool, ClientTransportMgr, DynamicHostResolver and a host table from three goroutines; unit (shared-objects): the learned-route table taught 200-3000 hosts by each of 2-6 loops at once (every host known afterwards, with its listener; a loop finds what it learned itself at once) and the rotation dispatching from 2-6 loops while two further backends are added and removed without pause (no panic, every dispatch at exactly one backend). Oracle: no race report, no fatal error or panic, every client finishes (no transaction waits more than 20 s unless a membership change was in flight), every request reached exactly one backend of the listen entry it was sent to (at most one while a change was in flight), every response returned to the client that sent the request, every request body (a function of its Call-ID; TCP clients pipeline a companion request now and then) arrived intact. non-trivial = plan with >= 2 listeners receiving simultaneously and >= 1 membership change during traffic; distinct by plan")
 	V.Assume("schedules are sampled by the Go scheduler under the drawn plan, not enumerated: this check can expose races, never show their absence")
 	V.Require("unit: learned-route table and rotation driven by several loops at once", "engine:bin (-race binary under load)", "plan with fast churn", "plan with churn", "plan with hammering", ">=2 listeners in parallel", "tcp and udp clients together")
 	rig, err := newC09Rig(false)
